@@ -33,7 +33,6 @@ theorem slice_m13_m1 (pan : Text) : Rt.slice pan (some (-(13 : Int))) (some (-(1
   rw [slice_neg_neg _ _ _ (by decide) (by decide)]
   rfl
 
-theorem bind_ok_right {α} (x : Outcome α) : Outcome.bind x (fun t => .ok t) = x := by cases x <;> rfl
 
 theorem fmtHex_len (pin : Text) : Rt.fmtHex (Rt.len pin) = Pin.lenField pin := by
   simp [Rt.fmtHex, Rt.len, Pin.lenField]
